@@ -470,6 +470,40 @@ def triples(draw):
             h.append(ns_call())
         h.append(copy.deepcopy(first))
         return {"history": h}
+    if sc in (13, 14):
+        # one locale, several calls whose settings agree in some of the keys the per-locale memos are built from (NORMALIZE picks
+        # the dictionary object, SKIP_TOKENS / CACHE_SIZE_LIMIT live inside it) and differ in others, on strings that contain
+        # the skipped words or unaccented spellings: whatever a memoised dictionary keeps from its first user shows up here
+        L, strs = draw(st.sampled_from([
+            (["en"], ["foo 12 March 2020 bar", "t 12 jan 2020", "12 March 2020", "de 3 May 2015 de", "2 days ago foo"]),
+            (["tr"], ["27 Haziran 1981 de", "27 Haziran 1981", "foo 12 Ocak 2020", "12 Subat 2020"]),
+            (["fr"], ["12 fevrier 2020", "12 février 2020 de", "foo 12 janvier 2020 bar", "t 12 aout 2020"]),
+            (["de"], ["3 Marz 2015 14:05", "3 März 2015 14:05 foo", "t 3 März 2015", "de 3 Mai 2015"]),
+            (["es"], ["12 de enero de 2020", "foo 12 enero 2020 bar", "t 12 enero 2020"])]))
+
+        def matrix_settings():
+            S = {}
+            n = draw(st.sampled_from([None, True, False, False]))
+            if n is not None:
+                S["NORMALIZE"] = n
+            k = draw(st.sampled_from([None, [], ["de"], ["t"], ["foo", "bar"], ["foo", "bar"], ["bar", "foo", "de"]]))
+            if k is not None:
+                S["SKIP_TOKENS"] = list(k)
+            if draw(st.integers(0, 4)) == 0:
+                S["CACHE_SIZE_LIMIT"] = draw(st.sampled_from([1, 2]))
+            return S or None
+        h = []
+        for _ in range(draw(st.integers(2, 4))):
+            S = matrix_settings()
+            k = draw(st.integers(0, 5))
+            if k == 0:
+                h.append(["search", "We met on " + draw(st.sampled_from(strs)) + " and left.", L, S, False])
+            elif k == 1:
+                h.append(["new_parser", len(h), L, None, None, False, S])
+                h.append(["use_parser", len(h) - 1, draw(st.sampled_from(strs)), None])
+            else:
+                h.append(["parse", draw(st.sampled_from(strs)), None, L, None, None, S])
+        return {"history": h}
     if sc == 15:
         pair = draw(st.sampled_from([({"STRICT_PARSING": True}, {"STRICT_PARSING": "True"}), ({"NORMALIZE": False}, {"NORMALIZE": "False"}),
                                      ({"CACHE_SIZE_LIMIT": 2}, {"CACHE_SIZE_LIMIT": "2"}), ({"PREFER_LOCALE_DATE_ORDER": False}, {"PREFER_LOCALE_DATE_ORDER": "False"}),
